@@ -1,0 +1,69 @@
+//go:build verif
+
+package stateless
+
+import (
+	"context"
+
+	cmttypes "github.com/cometbft/cometbft/types"
+
+	"github.com/oasisprotocol/oasis-core/go/common/crypto/hash"
+	"github.com/oasisprotocol/oasis-core/go/common/logging"
+	consensusAPI "github.com/oasisprotocol/oasis-core/go/consensus/api"
+	"github.com/oasisprotocol/oasis-core/go/consensus/api/transaction"
+	"github.com/oasisprotocol/oasis-core/go/consensus/cometbft/api"
+	"github.com/oasisprotocol/oasis-core/go/consensus/cometbft/consensus"
+)
+
+// Verification-only wrappers that expose the package-private verification
+// functions of the stateless consensus backend to external harnesses.
+// No behaviour change: every wrapper only forwards its arguments.
+
+// VerifVerifyBlock forwards to verifyBlock.
+func VerifVerifyBlock(blk *consensusAPI.Block, lb *cmttypes.LightBlock) error {
+	return verifyBlock(blk, lb)
+}
+
+// VerifVerifyBlockResults forwards to verifyBlockResults.
+func VerifVerifyBlockResults(results *consensusAPI.BlockResults, resultsHash []byte, lb *cmttypes.LightBlock) (*api.BlockResultsMeta, error) {
+	return verifyBlockResults(results, resultsHash, lb)
+}
+
+// VerifVerifyTransactions forwards to verifyTransactions.
+func VerifVerifyTransactions(txs [][]byte, lb *cmttypes.LightBlock) error {
+	return verifyTransactions(txs, lb)
+}
+
+// VerifTransactionsWithProofs forwards to transactionsWithProofs.
+func VerifTransactionsWithProofs(txs [][]byte) *consensusAPI.TransactionsWithProofs {
+	return transactionsWithProofs(txs)
+}
+
+// VerifVerifyTransactionProof forwards to verifyTransactionProof.
+func VerifVerifyTransactionProof(proof *transaction.Proof, tx *transaction.SignedTransaction, lb *cmttypes.LightBlock) error {
+	return verifyTransactionProof(proof, tx, lb)
+}
+
+// VerifVerifyNextValidators forwards to (*Core).verifyNextValidators on a
+// Core that has no provider, light client or queriers.
+func VerifVerifyNextValidators(validators *consensusAPI.Validators, lb *cmttypes.LightBlock) error {
+	c := &Core{logger: logging.GetLogger("cometbft/stateless/core")}
+	return c.verifyNextValidators(validators, lb)
+}
+
+// VerifVerifyParameters forwards to (*Core).verifyParameters on a Core that
+// only has the given consensus querier.
+func VerifVerifyParameters(ctx context.Context, q consensus.QueryFactory, params *consensusAPI.Parameters, lb *cmttypes.LightBlock) error {
+	c := &Core{consensusQuerier: q, logger: logging.GetLogger("cometbft/stateless/core")}
+	return c.verifyParameters(ctx, params, lb)
+}
+
+// VerifStateRootFromBlockTxs forwards to stateRootFromBlockTxs.
+func VerifStateRootFromBlockTxs(txs [][]byte) (hash.Hash, error) {
+	return stateRootFromBlockTxs(txs)
+}
+
+// VerifStateRootFromMetaTx forwards to stateRootFromMetaTx.
+func VerifStateRootFromMetaTx(metaTx []byte) (hash.Hash, error) {
+	return stateRootFromMetaTx(metaTx)
+}
